@@ -5,6 +5,7 @@ import MpsProps.Src.SrcFrostKeygen
 import MpsProps.Src.SrcDoernerKeygen
 import MpsProps.Src.SrcCmpConfig
 import MpsProps.C14alg
+import MpsProps.C14tap
 import MpsProps.AlgGen
 /-
   C14 — property theorems: the algebra layer (MpsProps/C14alg.lean) is imported here once merged.
